@@ -3,6 +3,8 @@ package num
 import (
 	"math/big"
 
+	fix "github.com/onflow/fixed-point"
+
 	"verif/lib/oracle"
 )
 
@@ -89,4 +91,75 @@ func fn1Case(t oracle.Type, op string, a, b, c *big.Int) bool {
 		return false
 	}
 	return fn1Hit(n, y)
+}
+
+// fn1Lib is the predicate actually used for exclusion: it calls the *dependency itself* (not cadence)
+// on the operand magnitudes — the unsigned routine that every Fix128/UFix128 `*`, `/`, `%` and
+// multiplyDivide funnels into — and reports whether the library panics or returns something else than the
+// exactly rounded quotient. A defect in cadence's own wrapper code (signs, rounding-rule mapping, error
+// mapping, range of the signed type) does not make this predicate true, so it cannot be masked by it.
+func fn1Lib(t oracle.Type, op string, a, b, c *big.Int, rule oracle.Rounding) (hit bool, how string) {
+	if t.Bits != 128 || !t.IsFixed() {
+		return false, ""
+	}
+	u := func(v *big.Int) fix.UFix128 {
+		m := new(big.Int).Abs(v)
+		return fix.NewUFix128(new(big.Int).Rsh(m, 64).Uint64(), new(big.Int).And(m, fn1Mask64).Uint64())
+	}
+	back := func(x fix.UFix128) *big.Int {
+		v := new(big.Int).SetUint64(uint64(x.Hi))
+		v.Lsh(v, 64)
+		return v.Or(v, new(big.Int).SetUint64(uint64(x.Lo)))
+	}
+	one := oracle.Pow10(t.Scale)
+	umax := new(big.Int).Sub(new(big.Int).Lsh(big.NewInt(1), 128), big.NewInt(1))
+	var res fix.UFix128
+	var err error
+	var exact *big.Int
+	abs := func(v *big.Int) *big.Int { return new(big.Int).Abs(v) }
+	defer func() {
+		if r := recover(); r != nil {
+			hit, how = true, "library-panic"
+		}
+	}()
+	switch op {
+	case "mul":
+		res, err = u(a).Mul(u(b), fix.RoundTruncate)
+		exact = oracle.RoundRat(new(big.Rat).SetFrac(new(big.Int).Mul(abs(a), abs(b)), one), oracle.TowardZero)
+	case "div":
+		if b.Sign() == 0 {
+			return false, ""
+		}
+		res, err = u(a).Div(u(b), fix.RoundTruncate)
+		exact = oracle.RoundRat(new(big.Rat).SetFrac(new(big.Int).Mul(abs(a), one), abs(b)), oracle.TowardZero)
+	case "mod":
+		if b.Sign() == 0 {
+			return false, ""
+		}
+		res, err = u(a).Mod(u(b))
+		exact = new(big.Int).Rem(abs(a), abs(b))
+	case "muldiv":
+		if c.Sign() == 0 {
+			return false, ""
+		}
+		res, err = u(a).FMD(u(b), u(c), fixRules[rule])
+		exact = oracle.RoundRat(new(big.Rat).SetFrac(new(big.Int).Mul(abs(a), abs(b)), abs(c)), rule)
+	default:
+		return false, ""
+	}
+	switch err.(type) {
+	case nil:
+		if back(res).Cmp(exact) != 0 {
+			return true, "library-wrong-result"
+		}
+	case fix.UnderflowError:
+		if exact.Sign() != 0 {
+			return true, "library-wrong-underflow"
+		}
+	case fix.PositiveOverflowError, fix.NegativeOverflowError:
+		if exact.Cmp(umax) <= 0 {
+			return true, "library-wrong-overflow"
+		}
+	}
+	return false, ""
 }
